@@ -105,3 +105,50 @@ def ws_message_kinds():
             ok, detail = False, f"message {text}: handler call raised {type(e).__name__}: {str(e)[:80]}"
         out.append((name, ok, detail))
     return out
+
+
+def replay_webc(inputs, obl):
+    """.web(...) then .webc(h) from a Klong program: .webc returns 1 and the port stops answering; a second .webc returns 0"""
+    import socket
+    import time
+    import urllib.request
+    from klongpy.repl import create_repl
+    k, loops = create_repl()
+    s = socket.socket()
+    s.bind(("127.0.0.1", 0))
+    port = s.getsockname()[1]
+    s.close()
+    problems = []
+    try:
+        k('.py("klongpy.web")')
+        k('hi::{x;"hello"}')
+        k('g:::{};g,"/hi",,hi;p:::{}')
+        k(f'h::.web("127.0.0.1:{port}";g;p)')
+        ok = False
+        for _ in range(30):
+            try:
+                ok = urllib.request.urlopen(f'http://127.0.0.1:{port}/hi', timeout=2).read() == b'hello'
+                break
+            except Exception:
+                time.sleep(0.1)
+        if not ok:
+            return dict(confirmed=False, detail='server did not come up')
+        r1 = k('.webc(h)')
+        time.sleep(0.5)
+        try:
+            urllib.request.urlopen(f'http://127.0.0.1:{port}/hi', timeout=2).read()
+            answers = True
+        except Exception:
+            answers = False
+        if r1 != 1:
+            problems.append(f".webc(h) returned {r1!r} for a live server (1 expected)")
+        if answers:
+            problems.append("the port still answers after .webc(h)")
+        r2 = k('.webc(h)')
+        if r2 != 0:
+            problems.append(f"a second .webc(h) returned {r2!r} (0 expected)")
+    except Exception as e:
+        problems.append(f"raised {type(e).__name__}: {str(e)[:80]}")
+    if problems:
+        return dict(confirmed=True, detail='; '.join(problems))
+    return dict(confirmed=False, detail='.webc stops a live server once and the port stops answering')
